@@ -9,7 +9,7 @@ use crate::visit::veq;
 use serde_json::json;
 use tls_parser::*;
 
-pub const RULE: &str = "serializable values (ClientHello over all versions / session ids 0..32 / 0..32767 ciphers / 0..255 compressions / extension block None, empty, opaque up to 65535, and every block size 65235..65535 x {0,1,2,3,255} compressions x cipher / session-id variants; ServerHello for 0300 (no extensions), 0301..0303; draft-18 hello; ClientKeyExchange Unknown/Dh/Ecdh; Finished; HelloRequest; ChangeCipherSpec; records of 1..n such messages) built as crate values, serialized by the crate, compared BYTE-EXACT with the independent reference encoding (which fixes every length field), parsed back (whole input consumed, value equals the documented normal form) and re-serialized; the same bytes demanded from every other public entry point (gen_tls_message, gen_tls_plaintext, the per-message gen_tls_* functions, TlsMessageHandshake::serialize) writing after a prefix already in the writer; values obtained by parsing generated records; SNI / max-fragment-length / supported-groups through gen_tls_extension(s) and the extension parsers; every unsupported message / extension variant must give GenError::NotYetImplemented. distinct_nontrivial = distinct (family, kind, presence flags, length classes) tuples";
+pub const RULE: &str = "serializable values (ClientHello over all versions / session ids 0..32 / 0..32767 ciphers / 0..255 compressions / extension block None, empty, opaque up to 65535, and every block size 65235..65535 x {0,1,2,3,255} compressions x cipher / session-id variants; ServerHello for 0300 (no extensions), 0301..0303; draft-18 hello; ClientKeyExchange Unknown/Dh/Ecdh; Finished; HelloRequest; ChangeCipherSpec; records of 1..n such messages) built as crate values, serialized by the crate, compared BYTE-EXACT with the independent reference encoding (which fixes every length field), parsed back (whole input consumed, value equals the documented normal form) and re-serialized; the same bytes demanded from every other public entry point (gen_tls_message, gen_tls_plaintext, the per-message gen_tls_* functions, TlsMessageHandshake::serialize) writing after a prefix already in the writer; values obtained by parsing generated records; SNI / max-fragment-length / supported-groups through gen_tls_extension(s) and the extension parsers; every unsupported message / extension variant must give GenError::NotYetImplemented, also on the second and third invocation of one serializer object (gen_tls_plaintext, gen_tls_message). distinct_nontrivial = distinct (family, kind, presence flags, length classes) tuples";
 pub const ASSUMPTIONS: &[&str] = &[
     "values outside wire limits (session id > 32 bytes, > 32767 ciphers, random != 32 bytes, record payload > 16640 bytes, Some(empty) session id, SSLv3 ServerHello carrying extensions) are outside the quantifier and not generated",
     "normal form: absent extension block is written as 00 00 and reads back as Some(empty) (for SSLv3 ServerHello, which has no block, None and Some(empty) are both accepted); Dh/Ecdh ClientKeyExchange read back as Unknown(body)",
@@ -93,6 +93,12 @@ fn kind(m: &AMsg) -> &'static str {
 fn direct_entries(v: &TlsMessage) -> Vec<(&'static str, Result<Vec<u8>, GenError>)> {
     let pre = || vec![0xA5u8, 0x5A];
     let mut o: Vec<(&'static str, Result<Vec<u8>, GenError>)> = vec![("gen_tls_message", gen_simple(gen_tls_message(v), pre()))];
+    {
+        // one serializer object invoked twice
+        let f = gen_tls_message(v);
+        let _ = gen_simple(&f, pre());
+        o.push(("gen_tls_message (second invocation of the same serializer)", gen_simple(&f, pre())));
+    }
     match v {
         TlsMessage::ChangeCipherSpec => o.push(("gen_tls_changecipherspec", gen_simple(gen_tls_changecipherspec(), pre()))),
         TlsMessage::Handshake(h) => {
@@ -576,6 +582,25 @@ pub fn run(ctx: &mut Ctx) {
                         let res = rec.serialize();
                         ctx.eval();
                         ctx.shape(&("nyi-record", ct, kind(&bad), n, hl.min(3)));
+                        // the serializer returned by gen_tls_plaintext is a reusable function: every invocation gives
+                        // the same answer (a first refusal must not leave anything behind that a later call presents as valid)
+                        {
+                            let f = gen_tls_plaintext(&rec);
+                            let runs: Vec<Result<Vec<u8>, GenError>> = (0..3).map(|_| gen_simple(&f, Vec::new())).collect();
+                            ctx.evals(3);
+                            ctx.count("serializer.reused");
+                            let same = runs.iter().all(|x| match (x, &res) {
+                                (Ok(a), Ok(b)) => a == b,
+                                (Err(_), Err(_)) => is_nyi(x) == is_nyi(&res),
+                                _ => false,
+                            });
+                            if !same {
+                                ctx.violation(
+                                    format!("c09:serializer-reuse:gen_tls_plaintext:ct=0x{:02x}:{}", ct, kind(&bad)),
+                                    json!({"content_type": ct, "messages": n, "position_of_unsupported": pos, "fresh": format!("{:.120?}", res), "invocations_of_one_serializer": format!("{:.300?}", runs)}),
+                                );
+                            }
+                        }
                         let payload: Vec<u8> = msgs.iter().flat_map(|m| m.to_bytes()).collect();
                         if matches!(&res, Ok(b) if *b == record(ct, 0x0303, &payload)) {
                             ctx.unjudged("serializer-now-supports-message-in-record");
